@@ -14,6 +14,7 @@ type T struct {
 // Table is a root Taskfile plus at most one included Taskfile.
 type Table struct {
 	NS            string `json:"namespace"` // "" = no include
+	NS2           string `json:"namespace2,omitempty"` // the same included file a second time, under this namespace
 	Root          []T    `json:"root"`
 	Inc           []T    `json:"included"`
 	IncludesFirst bool   `json:"includes_key_first"`
@@ -40,6 +41,15 @@ func (tb *Table) Merged() []M {
 			m.Aliases = append(m.Aliases, tb.NS+":"+a)
 		}
 		out = append(out, m)
+	}
+	if tb.NS2 != "" {
+		for _, t := range tb.Inc {
+			m := M{ID: t.ID, Name: tb.NS2 + ":" + t.Name, Included: true}
+			for _, a := range t.Aliases {
+				m.Aliases = append(m.Aliases, tb.NS2+":"+a)
+			}
+			out = append(out, m)
+		}
 	}
 	return out
 }
